@@ -727,10 +727,14 @@ impl<B: Backend> KModel<B> {
             what = "key-signs-differently";
           }
         }
-        if what == "observation-differs" && obs.side != again.side {
+        // entries of the other kind (side mode) were not touched by `op`: the key does not name it
+        let key = if what == "observation-differs" && obs.side != again.side {
           what = "key-id-mapping-lost-or-changed";
-        }
-        viol(&format!("{}|reopen-after-{name}|{what}", B::KEY_STORE), format!("before the reopen {obs:?}, after it {again:?}"));
+          format!("{}|reopen|{what}", B::KEY_STORE)
+        } else {
+          format!("{}|reopen-after-{name}|{what}", B::KEY_STORE)
+        };
+        viol(&key, format!("before the reopen {obs:?}, after it {again:?}"));
         self.col.outcome(&format!("reopen:{what}"));
         return None;
       }
@@ -1054,10 +1058,13 @@ impl<B: Backend> Model for IModel<B> {
             _ => {}
           }
         }
-        if what == "observation-differs" && obs.2 != again.2 {
+        let key = if what == "observation-differs" && obs.2 != again.2 {
           what = "stored-key-lost-or-changed";
-        }
-        viol(&format!("{}|reopen-after-{name}|{what}", B::KEYID_STORE), format!("before the reopen {obs:?}, after it {again:?}"));
+          format!("{}|reopen|{what}", B::KEYID_STORE)
+        } else {
+          format!("{}|reopen-after-{name}|{what}", B::KEYID_STORE)
+        };
+        viol(&key, format!("before the reopen {obs:?}, after it {again:?}"));
         self.col.outcome(&format!("reopen:{what}"));
         return None;
       }
